@@ -66,4 +66,39 @@ theorem step_other_thread {s s' : EState} {t u : Nat} (h : step s t = some s') (
   have hk := step_kind h
   cases hk <;> simp [upd, hu]
 
+/-! ### computing a step from its premises (used to replay a step in another state) -/
+
+theorem step_start {s : EState} {t : Nat} {op : EOp} (hc : (s.threads t).cur = none)
+    (hs : (s.threads t).strat (s.threads t).results = some op) (hl : (s.scopes op.scope).live = true) :
+    step s t = some { s with threads := upd s.threads t { s.threads t with cur := some op.frame } } := by
+  unfold ConcEnv.step; simp only [hc, hs, hl, if_true]
+
+theorem step_defer {s : EState} {t : Nat} {fr : EFrame} {d : EMOp} {sc : Sid} {ds : List (EMOp × Sid)}
+    (hc : (s.threads t).cur = some fr) (hr : fr.returning = true) (hd : fr.defers = (d, sc) :: ds) :
+    step s t = some { s with scopes := updS s.scopes sc (execDefer t d (s.scopes sc)),
+                             threads := upd s.threads t { s.threads t with cur := some { fr with defers := ds } } } := by
+  unfold ConcEnv.step; simp only [hc, hr, hd, if_true]
+
+theorem step_finish {s : EState} {t : Nat} {fr : EFrame} (hc : (s.threads t).cur = some fr)
+    (hr : fr.returning = true) (hd : fr.defers = []) (hm : fr.m ≠ .newScope) :
+    step s t = some { s with threads := upd s.threads t { s.threads t with cur := none, results := (s.threads t).results ++ [fr.res] } } := by
+  unfold ConcEnv.step; simp only [hc, hr, hd, hm, if_true, if_false]
+
+theorem step_install {s : EState} {t : Nat} {fr : EFrame} (hc : (s.threads t).cur = some fr)
+    (hr : fr.returning = true) (hd : fr.defers = []) (hm : fr.m = .newScope) :
+    step s t = some { s with scopes := updS s.scopes fr.newId { s.scopes fr.newId with live := true, data := fr.fresh, outer := some fr.cur, rank := s.clock }, threads := upd s.threads t { s.threads t with cur := none, results := (s.threads t).results ++ [fr.res] }, clock := s.clock + 1, writes := s.writes ++ fr.binds.map fun kv => (fr.newId, kv.1, kv.2) } := by
+  unfold ConcEnv.step; simp only [hc, hr, hd, hm, if_true]
+
+theorem step_alloc {s : EState} {t : Nat} {fr : EFrame} (hc : (s.threads t).cur = some fr)
+    (hnr : fr.returning = false) (hm : (prog fr.m)[fr.pc]? = some .alloc) :
+    step s t = some { s with threads := upd s.threads t { s.threads t with nextLocal := (s.threads t).nextLocal + 1, cur := some { fr with pc := fr.pc + 1, newId := some (t, (s.threads t).nextLocal), res := .scope (some (t, (s.threads t).nextLocal)) } } } := by
+  unfold ConcEnv.step; simp only [hc, hnr, hm, Bool.false_eq_true, if_false]
+
+theorem step_mop {s : EState} {t : Nat} {fr : EFrame} {m : EMOp} (hc : (s.threads t).cur = some fr)
+    (hnr : fr.returning = false) (hm : (prog fr.m)[fr.pc]? = some m) (hna : m ≠ .alloc) :
+    step s t = (exec t m fr (s.scopes fr.cur)).map fun (fr', A') =>
+      { s with scopes := updS s.scopes fr.cur A', threads := upd s.threads t { s.threads t with cur := some fr' },
+               writes := if m = .writeData then s.writes ++ [(fr.cur, fr.key, fr.val)] else s.writes } := by
+  unfold ConcEnv.step; simp only [hc, hnr, hm, Bool.false_eq_true, if_false]
+
 end LispModel.Proofs.ConcEnv
